@@ -209,8 +209,13 @@ func genC13(m *M, budget int) {
 				c = m.rng.Uint64()
 			}
 			m.SCSelect(2, c, 0, 1)
-			m.SCSelect(0, c, 0, 1) // receiver is an operand
+			m.SCSelect(0, c, 0, 1) // receiver is the first operand
+			m.SSetInt(0, a)
+			m.SCSelect(1, c, 0, 1) // receiver is the second operand
+			m.SSetInt(1, b)
 			m.SCSelect(1, c^1, 1, 1)
+			m.SSetInt(2, a)
+			m.SCSelect(2, c, 2, 2)
 			m.SCSelectNil(2, c, 0, m.rng.Intn(3))
 			if m.rng.Intn(4) == 0 {
 				m.SEqualNil(0)
